@@ -452,20 +452,6 @@ func (g *G) appCall(depth int) ts.App {
 		}
 		for k := g.intn("app-nargs", 0, 3); k > 0; k-- {
 			arg := g.expr(ts.TString, depth-1)
-			// open finding C18-literal-arg-unquoted: a literal argument is emitted as a bare shell word, so one
-			// starting with '#' comments out the rest of the line. Kept out of this search, counted.
-			inner := arg
-			for {
-				grp, isGroup := inner.(ts.Group)
-				if !isGroup {
-					break
-				}
-				inner = grp.E
-			}
-			if lit, ok := inner.(ts.StrLit); ok && len(lit.V) > 0 && lit.V[0] == '#' {
-				g.tag("excluded:C18-literal-arg-unquoted")
-				arg = ts.StrLit{V: "x" + lit.V}
-			}
 			one.Args = append(one.Args, arg)
 		}
 		a.Calls = append(a.Calls, one)
